@@ -1018,6 +1018,12 @@ func main() {
 					panic(err)
 				}
 				cases = append(cases, runHist(f, in, kinds[i]))
+			case strings.HasPrefix(kinds[i], "remote"):
+				var in remoteInput
+				if err := json.Unmarshal(raw, &in); err != nil {
+					panic(err)
+				}
+				cases = append(cases, runRemote(in, kinds[i]))
 			case strings.HasPrefix(kinds[i], "file-lives"):
 				var in livesInput
 				if err := json.Unmarshal(raw, &in); err != nil {
@@ -1044,6 +1050,7 @@ func main() {
 	} else {
 		rg := gen.NewRand(o.Seed)
 		rSched, rHost, rEnv, rFile, rHist, rLives := rg.Fork(), rg.Fork(), rg.Fork(), rg.Fork(), rg.Fork(), rg.Fork()
+		rRemote := rg.Fork()
 		for _, c := range corpus() {
 			cases = append(cases, runSched(f, c.clock0, c.k, c.steps, nil, 0, "sched-corpus"))
 		}
@@ -1051,6 +1058,11 @@ func main() {
 		// than an earlier one is monitor code 11)
 		for _, l := range livesCorpus() {
 			cases = append(cases, runFileLives(l, "file-lives-corpus"))
+		}
+		// the glue: remote client -> gRPC server -> service (a number the service did not return
+		// is monitor code 12)
+		for _, c := range remoteCorpus() {
+			cases = append(cases, runRemote(c, "remote-corpus"))
 		}
 		// every START attempt draws a fresh number: histories of starts on real environments
 		for _, h := range histCorpus() {
@@ -1071,7 +1083,8 @@ func main() {
 		nEnv := o.N * 16 / 100
 		nHist := o.N * 14 / 100
 		nLives := o.N * 12 / 100
-		nFile := o.N - nSched - nHost - nEnv - nHist - nLives
+		nRemote := o.N * 4 / 100
+		nFile := o.N - nSched - nHost - nEnv - nHist - nLives - nRemote
 		for i := 0; i < nSched; i++ {
 			k := 1 + rSched.Intn(8)
 			if rSched.Chance(1, 3) {
@@ -1106,6 +1119,9 @@ func main() {
 		}
 		for i := 0; i < nHist; i++ {
 			cases = append(cases, runHist(f, genHist(rHist), "hist"))
+		}
+		for i := 0; i < nRemote; i++ {
+			cases = append(cases, runRemote(genRemote(rRemote), "remote"))
 		}
 		for i := 0; i < nLives; i++ {
 			cases = append(cases, runFileLives(genLives(rLives), "file-lives"))
